@@ -38,6 +38,10 @@ for f in sorted(glob.glob(repo + "/pkg/api/*.go")):
                 if depth == 0: break
         params, res = h[i+1:j], h[j+1:].strip()
         funcs.append((os.path.basename(f), (recv + "." if recv else "") + name, " ".join(params.split()), res.strip()))
+# MergeCreateZipFile renames the context of staged.inputs[0] after withInput (an append whose result
+# may or may not share the backing array): the store goes to an array whose provenance the contracts do
+# not track, so the memory frame is left open for it (nothing in C01-C03 speaks about slice contents).
+EXTRA = {"MergeCreateZipFile": ["//@   modifies mem"]}
 out = ["//@ # BEGIN generated staging-protocol contracts (tools/gen_protocol_contracts.py)"]
 n = 0
 for fn, name, params, res in funcs:
@@ -54,6 +58,7 @@ for fn, name, params, res in funcs:
             "//@   property C01 C02 C03",
             "//@   opt opaque_strings",
             "//@   requires $faults == 0 && $stage == 0 && !$outClosed",
+            *EXTRA.get(name, []),
             "//@   modifies heap $exists $data $mode $faults $stage $outClosed",
             "//@   keeps $exists $data $mode $faults $stage $outClosed",
             "//@   ghostset openStagedOutput :: $stage = err == nil ? 1 : 0",
